@@ -12,6 +12,7 @@ pub mod skdrv;
 pub mod capfam;
 pub mod cff2prog;
 pub mod cffprog;
+pub mod colrgrad;
 pub mod sup;
 pub mod ttprog;
 
@@ -32,6 +33,7 @@ pub fn drivers() -> Vec<(&'static str, Driver)> {
         ("glyfgraph", glyfgraph::drive as Driver),
         ("klippa", drive_klippa as Driver),
         ("capfam", capfam::drive as Driver),
+        ("colrgrad", colrgrad::drive as Driver),
     ]
 }
 
@@ -251,9 +253,12 @@ pub fn viol_identity(v: &Viol) -> String {
 pub fn narrow(case: &Value, sub: u64) -> Value {
     let mut c = case.clone();
     let batch = matches!(c["driver"].as_str(), Some("ttprog") | Some("cffprog") | Some("cff2prog")) && !c["o1"].is_null();
-    let batch = batch || (c["driver"] == "glyfgraph" && !c["s0"].is_null()) || c["driver"] == "capfam";
+    let batch = batch || (c["driver"] == "glyfgraph" && !c["s0"].is_null()) || c["driver"] == "capfam" || c["driver"] == "colrgrad";
     if batch && c["only"].is_null() {
         c["only"] = json!(sub);
+        if c["driver"] == "colrgrad" {
+            c["described"] = json!(colrgrad::describe(&c));
+        }
         if c["driver"] == "capfam" {
             c["described"] = json!(capfam::describe(&c));
         }
@@ -270,7 +275,8 @@ pub fn resume_batch(case_json: &str, f: &Failure) -> Option<String> {
     let mut c: Value = serde_json::from_str(case_json).ok()?;
     let batch = (matches!(c["driver"].as_str(), Some("ttprog") | Some("cffprog") | Some("cff2prog")) && !c["o1"].is_null())
         || (c["driver"] == "glyfgraph" && !c["s0"].is_null())
-        || c["driver"] == "capfam";
+        || c["driver"] == "capfam"
+        || c["driver"] == "colrgrad";
     if !batch || !c["only"].is_null() {
         return None;
     }
@@ -448,6 +454,9 @@ pub fn phases(quick: bool) -> Result<Vec<Phase>, String> {
     ));
     // 2d. capacity boundary families (structured sweeps across every fixed capacity)
     out.push(vec_phase("capfam", capfam::gen_cases(), 1, 1, vec![("capfam".into(), capfam::bounds())]));
+    // 2e. synthesised COLR v1 gradient family
+    colrgrad::sanity().map_err(|e| format!("colrgrad assembler gate: {e}"))?;
+    out.push(vec_phase("colrgrad", colrgrad::gen_cases(), 1, 9, vec![("colrgrad".into(), colrgrad::bounds())]));
     // 2c. klippa subsetter (observations in C02, judged by C20)
     let (ksize, kbytes) = if quick { (8 << 10, 32) } else { (64 << 10, 128) };
     let kl = gen_klippa_cases(ksize, kbytes, !quick);
